@@ -5,6 +5,8 @@ Oracle (independent of the Lean model), applied to every call of every script li
   the call did not allocate more than 2*(remaining input)+4096 bytes (flag measured by the harness);
   a successful ReadBytes/ReadString returns exactly the announced number of bytes taken from the input right after the
   prefix (prefix decoded here with an independent LEB128 decoder) and advances Position() by prefix + size;
+  every string returned by ReadString still holds the same bytes after a later Tidy() / Reset()+Write() of the stream
+  (harness marker alias=<op>; ReadBytes results are not judged);
   Read7BitEncodedInt consumes at most 5 bytes and does not accept a group whose fifth byte is > 15 (the documented
   ErrBad7BitInt case named in the property's mechanism anchors)."""
 from .runner import Spec
@@ -81,6 +83,9 @@ class C12(Spec):
             data, steps = parse(script)
         except ValueError:
             return ("malformed", "bad script line")
+        impl, sep, alias = impl.rpartition(" | alias=")
+        if not sep:
+            return ("malformed", "no alias marker in harness output")
         outs = impl.split(" ; ")
         if len(outs) != len(steps):
             return ("malformed", "expected %d results, harness printed %d: %s" % (len(steps), len(outs), impl[:200]))
@@ -143,6 +148,11 @@ class C12(Spec):
                     if not cnt.isdigit() or p != pos + int(cnt) or unhex(hx) != data[pos:p]:
                         return ("read-inexact", "%s returned count %s data %s, Position() %d" % (where, cnt, hx[:60], p))
             pos = p
+        if alias != "-":
+            which = steps[int(alias)][1] + " (op %s)" % alias if alias.isdigit() and int(alias) < len(steps) else alias
+            return ("string-result-aliases-buffer", "the string returned by %s on input %s no longer holds the announced bytes after "
+                    "the stream was compacted (Tidy) or reused (Reset + Write): a Go string is immutable, the result must be a "
+                    "private copy, not a view of the stream's buffer" % (which, (data.hex() or "-")[:80]))
         return None
 
     def nontrivial(self, script, impl):
